@@ -753,7 +753,13 @@ impl<A: crate::net::Acceptor, C: CommandCreatorSync> SccacheServer<A, C> {
 
 /// Maps a compiler proxy path to a compiler proxy and it's last modification time
 type CompilerProxyMap<C> = HashMap<PathBuf, (Box<dyn CompilerProxy<C>>, FileTime)>;
-type CompilerMap<C> = HashMap<PathBuf, Option<CompilerCacheEntry<C>>>;
+/// Maps (compiler path as requested, resolved compiler path) to the detected compiler.
+///
+/// The detected `Compiler` keeps running the executable it was detected through (the
+/// requested path, or what a proxy resolved it to), so an entry must only be reused for
+/// that same requested path: two links to one binary get two entries, and retargeting
+/// one of them cannot change what requests through the other one execute.
+type CompilerMap<C> = HashMap<(PathBuf, PathBuf), Option<CompilerCacheEntry<C>>>;
 
 /// entry of the compiler cache
 struct CompilerCacheEntry<C> {
@@ -1148,7 +1154,8 @@ where
             _ => None,
         };
 
-        let opt = match me1.compilers.read().await.get(&resolved_compiler_path) {
+        let compilers_key = (path.clone(), resolved_compiler_path.clone());
+        let opt = match me1.compilers.read().await.get(&compilers_key) {
             // It's a hit only if the mtime and dist archive data matches.
             Some(Some(entry)) => {
                 if entry.mtime == mtime && entry.dist_info == dist_info {
@@ -1188,7 +1195,7 @@ where
                     Ok((c, proxy)) => (c.clone(), proxy.clone()),
                     Err(err) => {
                         trace!("Inserting PLAIN cache map info for {:?}", &path);
-                        me.compilers.write().await.insert(path, None);
+                        me.compilers.write().await.insert(compilers_key, None);
 
                         return Err(err);
                     }
@@ -1221,7 +1228,7 @@ where
                 me.compilers
                     .write()
                     .await
-                    .insert(resolved_compiler_path, Some(map_info));
+                    .insert(compilers_key, Some(map_info));
 
                 // drop the proxy information, response is compiler only
                 Ok(c)
